@@ -322,6 +322,21 @@ def run(report, index, tier):
                  'returns %r, expected %r' % (got, want),
                  where='asttypes.py:Node.getpos')
 
+    # a node without any token map (positioned by hand, or not at all)
+    # has no position for any text
+    node0 = Obj('Node', lexpos=7, lineno=3, colno=2)
+    ev0 = Evaluator(am.module, 'Node', {}, {
+        'getattr': lambda o, n, d=None: getattr(o, n) if o.has(n) else d})
+    try:
+        got0 = tuple(ev0.call(getpos, [';', 0], self_obj=node0)[0])
+    except Raised as e:
+        got0 = 'raises %s' % e.text
+    r3.check(got0 == (None, None, None), 'getpos without a token map',
+             'Node.getpos(\';\', 0) on a node that has lexpos / lineno / '
+             'colno but no _token_map',
+             'returns %r, expected (None, None, None): the node\'s own '
+             'position is not the position of an arbitrary text' % (got0,),
+             where='asttypes.py:Node.getpos')
     # a leaf node asked for a text other than the one it was built from
     # (a literal rewritten by the printer, a renamed identifier) has no
     # position for it: the position of the raw value is not where the
